@@ -45,7 +45,7 @@ Do(e) == CASE e.n = "set_val" -> SetValScalar(C(e))
 
 \* the mode the history starts in (hist[1].cs is the mode AFTER the first action; only the switch changes the mode)
 CS0 == IF hist = <<>> THEN cs ELSE IF hist[1].a.n = "cs_mode" THEN ~hist[1].a.on ELSE hist[1].cs
-Export == Len(hist) = Depth => PrintT(<<"EXP", ToJson([ly |-> ly, kind |-> kind, alloc |-> alloc, cs0 |-> CS0, x0 |-> X0(N(L)),
+Export == Len(hist) = Depth => PrintT(<<"EXP", ToJson([ly |-> ly, kind |-> kind, fam |-> fam, alloc |-> alloc, cs0 |-> CS0, x0 |-> X0(N(L)),
                                                          xi0 |-> IF alloc THEN XI0(N(L)) ELSE Fill(N(L), Zero), y0 |-> y, yi0 |-> yi,
                                                          h |-> [k \in 1..Len(hist) |-> Observables(hist[k])]])>>)
 =============================================================================
